@@ -158,7 +158,15 @@ def validate_traces(problems, traces, workers=1, timeout=3600):
         with open(tf, "w") as f:
             json.dump(traces, f)
         lines, stats = run_tlc("TimelineTrace", "TimelineTrace.cfg",
-                               {"PROBLEMS_FILE": pf, "TRACE_FILE": tf}, workers=workers, timeout=timeout)
+                               {"PROBLEMS_FILE": pf, "TRACE_FILE": tf}, workers=workers, timeout=timeout,
+                               extra=["-coverage", "1"])
+        # which trace actions consumed the implementation's events (vacuity: an action never taken was never bound)
+        acts = {}
+        for ln in lines:
+            m = _COV.match(ln)
+            if m and m.group(2) == "TimelineTrace":
+                acts[m.group(1)] = acts.get(m.group(1), 0) + int(m.group(3))
+        stats["trace_actions_taken"] = acts
         res = [None] * len(traces)
         for rec in _json_lines(lines):
             if "tid" not in rec:
